@@ -314,10 +314,13 @@ def run_driver(pkg, cases, name="drv", timeout=900, env=None, run="^TestVerifDri
     obs = None
     if os.path.exists(outp):
         obs = []
-        for line in open(outp):
-            line = line.strip()
-            if line:
-                obs.append(json.loads(line))
+        try:
+            for line in open(outp):
+                line = line.strip()
+                if line:
+                    obs.append(json.loads(line))
+        except ValueError as ex:
+            return None, "driver output is not JSON lines (%s)\n%s" % (ex, out[-3000:])
     if rc != 0 or obs is None or len(obs) != len(cases):
         return None, "driver rc=%s obs=%s/%s\n%s" % (rc, None if obs is None else len(obs), len(cases), out[-6000:])
     return obs, out
